@@ -31,6 +31,11 @@ REP_KINDS = {
 _KINDS: dict = {}
 
 
+def _batch(v, prepared):
+    """The nodes of a batch argument WITHOUT walking a one-shot iterable (the real call must still find it unconsumed)."""
+    return list(v) if isinstance(v, (list, tuple)) else list(prepared.get('batch_items', []))
+
+
 class Skip(Exception):
     """The op cannot be expressed in the driver protocol (counted, not judged)."""
 
@@ -275,14 +280,14 @@ class Observer:
             tail = f'{_enc_int(op["idx"])} {_enc_values([val], ids, store)}'
         elif m == 'setslice':
             _, a, b, k = op['idx']
-            tail = f'{_enc_int(a)} {_enc_int(b)} {_enc_int(k)} {_enc_values(list(val), ids, store)}'
+            tail = f'{_enc_int(a)} {_enc_int(b)} {_enc_int(k)} {_enc_values(_batch(val, prepared), ids, store)}'
         elif m == 'delitem':
             tail = _enc_int(op['idx'])
         elif m == 'delslice':
             _, a, b, k = op['idx']
             tail = f'{_enc_int(a)} {_enc_int(b)} {_enc_int(k)}'
         elif m == 'extend':
-            tail = _enc_values(list(args[0]), ids, store)
+            tail = _enc_values(_batch(args[0], prepared), ids, store)
         elif m == 'clear':
             tail = ''
         else:
